@@ -22,7 +22,17 @@ ASSUMPTIONS = ["the socket side of the IOWorker is not exercised (bytes are push
 
 NPORTS = 4
 KINDS = ['echo', 'features', 'get_config', 'set_config', 'barrier', 'st_desc', 'st_flow', 'st_aggregate', 'st_table', 'st_port', 'st_queue',
-         'st_vendor', 'st_unknown', 'vendor', 'queue_cfg', 'port_mod', 'flow_mod_bad', 'flow_mod_add', 'packet_out_buf', 'hello']
+         'st_vendor', 'st_unknown', 'vendor', 'queue_cfg', 'port_mod', 'flow_mod_bad', 'flow_mod_add', 'packet_out_buf', 'hello', 'short', 'unknown_type']
+SHORT_TYPES = [9, 14, 13, 15, 16, 20, 4]      # set_config, flow_mod, packet_out, port_mod, stats_request, queue_get_config, vendor: all longer than a bare header
+
+
+class Raw:
+  """a request given as wire bytes (malformed at the framing level): version 1, type, length, xid, body"""
+  def __init__(self, ctx, typ, length, body=()):
+    self.ctx = ctx; self.typ = typ; self.length = length; self.body = list(body); self.xid = 0
+  def pack(self):
+    x = self.xid
+    return env.tobytes(self.ctx, [1, self.typ, self.length >> 8, self.length & 255, (x >> 24) & 255, (x >> 16) & 255, (x >> 8) & 255, x & 255] + self.body)
 
 
 def plans(thorough):
@@ -153,6 +163,14 @@ def h_seq(ctx, plan):
       msg = of.ofp_packet_out(in_port=0xffff, actions=[of.ofp_action_output(port=1)])
       msg.buffer_id = bid
       error(xid, 1, (7, 8))       # no packet is buffered in this history: BUFFER_EMPTY / BUFFER_UNKNOWN
+    elif kind == 'short':
+      # a bare 8-byte header of a type whose body is mandatory: OFPET_BAD_REQUEST / OFPBRC_BAD_LEN carrying the request's xid
+      msg = Raw(ctx, SHORT_TYPES[(i + len(plan[0])) % len(SHORT_TYPES)], 8)
+      error(xid, 1, (6,))
+    elif kind == 'unknown_type':
+      msg = Raw(ctx, ctx.int('utype%d' % i, 22, 255), 8 + 2, [0xaa, 0xbb] if i % 2 else [])
+      if not i % 2: msg.length = 8
+      error(xid, 1, (1,))
     else:
       raise KeyError(kind)
     msg.xid = xid
